@@ -898,6 +898,9 @@ func runC13(x *X) {
 	x.Explore("header-row-callbacks", ExploreOpts{ShardDepth: 2, Bound: "header of 1..3 cells x 0..2 body rows x {PRECELL, POSTCELL} x {ITSELF, CELL, ROW} registered on the header row (captured through the add-time ROW callback) x 2 passes"}, func(c *Chooser) {
 		c13HeaderRow(x, c)
 	})
+	x.Explore("pass-after-an-abandoned-pass", ExploreOpts{ShardDepth: 2, Bound: "2x2 table with/without header; 9 counting callbacks over table/column/row slots; an aborting callback on 6 slots abandons pass 1|2 by {panic recovered by the caller, runtime.Goexit}; the next 1-2 complete passes compared counter by counter with a twin table that was never interrupted"}, func(c *Chooser) {
+		c13AbandonedPass(x, c)
+	})
 	refShapes := []c13Shape{{2, []int{2, 2}}, {1, []int{1}}, {-1, []int{2, 1}}, {2, []int{2, -1}}}
 	x.Explore("refusal-then-valid", ExploreOpts{ShardDepth: 3, Bound: fmt.Sprintf("%d shapes x (any supported registration ; an unsupported one on a column or cell ; a supported one on that owner) all made at the start | after all steps x 1 pass", len(refShapes))}, func(c *Chooser) {
 		shape := refShapes[c.Choose(len(refShapes))]
